@@ -298,7 +298,9 @@ func handleDefinitionChanges(ctx context.Context, c *cli.Context, pRunner *prunn
 		defer t.Stop()
 
 		notifyReload := make(chan os.Signal, 1)
-		defer close(notifyReload)
+		// The channel must not be closed while it is registered for signals: a SIGUSR1 that arrives after the
+		// context is done (i.e. during shutdown) would panic the process with "send on closed channel"
+		defer signal.Stop(notifyReload)
 		notifyReloadSignal(notifyReload)
 
 		for {
